@@ -1,5 +1,6 @@
 import PenneModel.Lex.Lemmas
 import PenneModel.Lex.Lexemes
+import PenneModel.Lex.Quote
 /-
   C14 — both lexers implement the same lexical grammar, with exact spans.  Property theorems about the
   reference lexer model (`Lex/Model.lean`), which the correspondence run compares with both real lexers.
@@ -244,6 +245,18 @@ theorem lexeme_bin_suffix (ds cs sfx : List Char) (t : Ty) (h : WithSep ds cs) (
     (hs : (sfx, t) ∈ suffixes) (hv : valueOf 2 ds < max128) :
     Lexeme ('0' :: 'b' :: (cs ++ sfx)) (.suf (valueOf 2 ds) t) :=
   (lexemeP_bin_suffix ds cs sfx t h hne hds hs hv).weaken (fun _ ht => ht.stops)
+
+/-- string literals with escapes: any run of printable characters, simple escapes (`\\n \\r \\t \\\\ \\' \\" \\0`), `\\xHH`,
+    `\\u{…}` (1–8 hex digits, a scalar value) and raw non-ASCII characters between the quotes is the string token holding exactly
+    the bytes those items stand for (`QItem`: the specification of what each escape means), spanning exactly its characters -/
+theorem string_literal_exact {sps : List Char} {bs : List Nat} {n : Nat} (h : QItems '"' sps bs n) :
+    LexemeP AfterAny ('"' :: (sps ++ ['"'])) (.str bs) :=
+  lexemeP_string_items h
+
+/-- character literals: one item standing for one byte -/
+theorem char_literal_exact {sp : List Char} {b : Nat} (h : QItem '\'' sp [b]) :
+    LexemeP AfterAny ('\'' :: (sp ++ ['\''])) (.chr b) :=
+  lexemeP_char_item h
 
 /-- **C14, one line**: a line made of tokens in any legal spellings (`Good`: each item a `Lexeme`), indented by any blanks,
     separated by any non-empty runs of blanks and optionally ended by a `//` comment, is split into exactly those tokens, each
